@@ -240,6 +240,44 @@ void outer(St& s, dispenso::ThreadPool& pool, Set& set, const std::string& prog,
 }
 } // namespace nest
 
+// A set that the *submitting thread* filled before the pool got busy, waited for from inside a task of another set:
+// T0 lets every worker park, schedules k leaves to a ConcurrentTaskSet `inner` (kHeavy: placed into the steal ring
+// of a claimed sleeper; kLightweight: central queue), then puts one task "inner.wait()" into an outer set and waits
+// on the outer set. Whoever picks the waiting task up must still be able to find the leaves.
+//   o  outer set kind T|C|L     ic  inner cost h|l     k leaves     n pool size
+MC_HARNESS(nest_pre) {
+  int N = (int)P("n", 1), k = (int)P("k", 1);
+  std::string o = P.s("o", "C"), ic = P.s("ic", "h");
+  mc::Shared<int> leaves{0}, waited{0};
+  {
+    dispenso::ThreadPool pool((size_t)N);
+    usleep(50000); // virtual time: expires only when nothing else can run, i.e. when every worker is parked
+    dispenso::ConcurrentTaskSet inner(pool, ic == "l" ? dispenso::TaskCost::kLightweight : dispenso::TaskCost::kHeavy);
+    for (int i = 0; i < k; i++)
+      inner.schedule([&] {
+        mc::point();
+        leaves.add(1);
+      });
+    auto waiter = [&] {
+      inner.wait();
+      MC_CHECK(leaves.get() == k, "inner wait() returned with %d of %d leaves run", leaves.get(), k);
+      waited.set(1);
+    };
+    if (o == "T") {
+      dispenso::TaskSet outer(pool);
+      outer.schedule(waiter, dispenso::ForceQueuingTag());
+      outer.wait();
+    } else {
+      dispenso::ConcurrentTaskSet outer(pool, o == "L" ? dispenso::TaskCost::kLightweight : dispenso::TaskCost::kHeavy);
+      outer.schedule(waiter, dispenso::ForceQueuingTag());
+      outer.wait();
+    }
+    MC_CHECK(waited.get() == 1 && leaves.get() == k, "outer wait() returned: waiter done=%d, leaves %d of %d", waited.get(), leaves.get(), k);
+    cov("pre_filled_inner_set");
+  }
+  mc::observe("leaves", leaves.get());
+}
+
 MC_HARNESS(nest) {
   using namespace nest;
   int N = (int)P("n", 1), k = (int)P("k", 1), fq = (int)P("fq", 1);
